@@ -1,6 +1,8 @@
 """C13 — the generated fiddler does what apply_diff does."""
 
 import copy
+import sys
+import types
 
 import fiddle as fdl
 from fiddle import daglish
@@ -38,7 +40,9 @@ TIME_LIMIT = {'quick': 900, 'thorough': 6 * 3600}
 @st.composite
 def strategy_(draw, tier):
   if draw(st.floats(0, 1)) < 0.2:
-    return {'kind': 'template', 't': draw(st.sampled_from(['alias_replaced', 'alias_replaced', 'shared_chain'])),
+    return {'kind': 'template', 't': draw(st.sampled_from(['alias_replaced', 'alias_replaced', 'shared_chain', 'symbols'])),
+            'slots': draw(st.permutations(['b', 'c', 'd', 'e'])), 'swap': draw(st.booleans()),
+            'which': draw(st.lists(st.sampled_from(['main_nested', 'main_fn', 'vfrac', 'stdfrac']), min_size=1, max_size=4, unique=True)),
             'shared_block': draw(st.booleans()), 'modify_via': draw(st.sampled_from(['a', 'b'])),
             'ref_via': draw(st.sampled_from(['a', 'b'])), 'also_edit_moved': draw(st.booleans()),
             'extra_delete': draw(st.booleans())}
@@ -74,6 +78,21 @@ def make_template(case):
                      diffing.SetValue(_attr('c', 'y'), 'edited'))
     if case['extra_delete']:
       changes.append(diffing.DeleteValue(_attr('d')))
+    return old, diffing.Diff(tuple(changes), ())
+  if t == 'symbols':
+    # new values whose callables are referenced in unusual ways: objects of the running script
+    # (module '__main__', nested qualname), and two modules with the same last name (a package
+    # sub-module and a top-level module)
+    import fractions as std_fractions
+    from harness.vuni import fractions as vfractions
+    mk = {'main_nested': lambda: fdl.Config(things.MainOuter.Inner, x=1),
+          'main_fn': lambda: fdl.Config(things.main_fn, x=2),
+          'vfrac': lambda: fdl.Config(vfractions.frac, x=3),
+          'stdfrac': lambda: fdl.Config(std_fractions.Fraction, numerator=1, denominator=2)}
+    old = fdl.Config(things.h1, a=fdl.Config(things.f2, x=0))
+    changes = [diffing.SetValue(_attr(slot), mk[w]()) for slot, w in zip(case['slots'], case['which'])]
+    if case['swap']:
+      changes.append(diffing.ModifyValue(_attr('a') + (daglish.BuildableFnOrCls(),), things.MainOuter.Inner))
     return old, diffing.Diff(tuple(changes), ())
   # shared_chain: new shared values referencing each other
   old = fdl.Config(things.h1, a='x', b=fdl.Config(things.f2, x='keep'))
@@ -113,6 +132,21 @@ def _known_feature(diff):
 
 
 def check(case):
+  # objects "defined in the running script": while the case runs, sys.modules['__main__'] is a
+  # module really named '__main__' (in a multiprocessing worker it is called '__mp_main__')
+  # that holds them
+  real_main = sys.modules.get('__main__')
+  fake = types.ModuleType('__main__')
+  fake.MainOuter = things.MainOuter
+  fake.main_fn = things.main_fn
+  sys.modules['__main__'] = fake
+  try:
+    return _check(case)
+  finally:
+    sys.modules['__main__'] = real_main
+
+
+def _check(case):
   out = Outcome()
   out.cls('kind_' + case['kind'])
   if case['kind'] == 'template':
